@@ -96,7 +96,7 @@ def load_interp(crates, log=print):
     meta = {}
     for c in crates:
         path, key, hit = mir_dump(c, log)
-        cache = path + '.pickle'
+        cache = path + '.' + hashlib.sha256(open(os.path.join(VERIF, 'mirsym', 'mirparse.py'), 'rb').read()).hexdigest()[:8] + '.pickle'
         mir = None
         if os.path.exists(cache):
             try:
@@ -109,7 +109,7 @@ def load_interp(crates, log=print):
                 with open(cache, 'wb') as fh: pickle.dump(mir, fh, protocol=pickle.HIGHEST_PROTOCOL)
             except Exception:
                 pass
-            for old in glob.glob(os.path.join(BUILD, 'mir', f'{c}.*.mir.pickle')):
+            for old in glob.glob(os.path.join(BUILD, 'mir', f'{c}.*.pickle')):
                 if old != cache: os.remove(old)
         info = CrateInfo(mir, REPO, [d for d in CRATE_DIRS[c] if d.startswith(c + '/')])
         I.add_crate(info)
